@@ -37,4 +37,8 @@ func init() {
 		"	tRes, err := c.internal.Recv()\n	if err != nil {\n		return res, translateGRPCError(err)\n	}", "	tRes, err := c.internal.Recv()\n	if err != nil {\n		return res, err\n	}", "C14.R3.sticky")
 	mut("C14", "stream core close is no longer idempotent", hcore,
 		"	if c.closed {\n		return nil\n	}\n	c.closed = true\n	close(c.normalShutdownSig)", "	c.closed = true\n	close(c.normalShutdownSig)", "C14.R4.once")
+
+	// ---------------- C14.R3.overwrite
+	mut("C14", "the shared close overwrites the cached terminal result", "freighter/go/http/stream.go",
+		"	c.closed = true\n	close(c.normalShutdownSig)", "	c.closed = true\n	c.peerCloseErr = freighter.ErrStreamClosed\n	close(c.normalShutdownSig)", "C14.R3.overwrite")
 }
